@@ -715,17 +715,19 @@ def json_spec3(v, o, minimal):
     return items
 
 
-def schema_obligations(ctx, result, version, skip=("vectorString",)):
+def schema_obligations(ctx, result, version, skip=("vectorString",), only=None):
     """C10: every fragment of the official schema holds for every leaf combination of the document"""
     from pyvc.interp import UNBOUND
 
     root = JS.load(version)
-    for k in root.get("required", []):
+    for k in (root.get("required", []) if only is None else []):
         v = result.get(k, UNBOUND) if isinstance(result, dict) else UNBOUND
         unconditional = v is not UNBOUND and not (isinstance(v, FV) and any(x is UNBOUND for x in v.values))
         ctx.prove("schema:required[%s]" % k, unconditional, "required field %s is always present" % k)
     for name, props, frag in JS.fragments(root):
         if any(p in skip for p in props):
+            continue
+        if only is not None and name not in only:
             continue
         vals = [result.get(p, UNBOUND) for p in props]
         if all(x is UNBOUND for x in vals):
